@@ -104,9 +104,18 @@ fn staged(files: &Files, filler: usize, dep: bool, dup: bool, one: bool, graph_f
         if let Some((_, t)) = files.first() {
             c.change_file(FileId(MOD0), t.as_str().into());
         }
-        let first: Files = files.iter().take(1).cloned().collect();
-        structural(&first, 0, &mut c, Some(dep), false, one);
+        // only the first package has a root so far: the dependency named by the graph is not on disk yet
+        let mut app = FileSet::default();
+        app.insert(FileId(0), VfsPath::new("/app/gleam.toml"));
+        if let Some((n, _)) = files.first() {
+            app.insert(FileId(MOD0), VfsPath::new(format!("/app/src/{n}.gleam")));
+        }
+        c.set_roots(vec![SourceRoot::new(app, "/app".into())]);
+        c.set_package_graph(graph(dep, false));
         host.apply_change(c);
+        // something is asked in this state (what it memoises must be invalidated by the roots that follow)
+        let _ = catch(|| host.snapshot().diagnostics(FileId(MOD0)));
+        let _ = catch(|| { let a = host.snapshot(); queries::file_query(&a, FILE_QUERIES[FILE_QUERIES.len() - 1], FileId(MOD0), files.first().map_or(0, |f| f.1.len())) });
         let mut c = Change::default();
         c.change_file(FileId(1), "".into());
         for (i, (_, t)) in files.iter().enumerate().skip(1) {
